@@ -100,6 +100,10 @@ def run_array_cases(cases, res):
             obs['elem'] = (lib.codes_of(e | 1)[0], lib.codes_of(e ^ 1)[0], lib.codes_of(e & 3)[0], lib.codes_of(~e)[0], int(e) if nf == 0 else None, e.bin())
             # an indexed write of a Python integer: the buffer still holds plain Python integers (no nested array objects)
             y = fx.Fxp(val, s, n, nf, raw=raw, **kw); y[0] = 0; y[len(val) - 1] = 1
+            # ... and a SEQUENCE assigned to one element is either rejected or stored as numbers: never as a nested array object
+            for seq in ([5], np.array([5]), (1, 0)):
+                try: y[0] = seq
+                except (ValueError, TypeError): pass
             obs['buffer_types'] = sorted(set(type(t).__name__ for t in np.asarray(y.val).reshape(-1).tolist()))
         except Exception as e:
             res.fail(c, 'C18: storing a list of wide integers raised %s' % lib.exc_name(e), got=str(e)[:300]); continue
